@@ -20,7 +20,13 @@ already queued. Pre-emptive interleavings inside send() are outside the model.
 """
 from __future__ import annotations
 
-from typing import Any, Callable, List, Optional
+import _thread
+from typing import Any, Callable, Dict, List, Optional
+
+
+class _Kill(BaseException):
+    """Raised inside a suspended polling thread when the scheduler is reset."""
+
 
 
 class VEvent:
@@ -58,6 +64,19 @@ class VThread:
         self.deadline: Any = None
         self.done = False
         self.started = False
+        # "actor-*" threads are pollers (`while running: time.sleep(0.01)`):
+        # they run as coroutines on a real OS thread with baton passing - only
+        # one of {main thread, poller} runs at any time; each virtual
+        # time.sleep() hands the baton back to the scheduler.
+        self.co = self.name.startswith("actor-")
+        if self.co:
+            self.event = None
+        self.os_started = False
+        self.kill = False
+        self.go = _thread.allocate_lock()
+        self.back = _thread.allocate_lock()
+        self.go.acquire()
+        self.back.acquire()
 
     def start(self) -> None:
         self.started = True
@@ -73,7 +92,35 @@ class VThread:
     def join(self, timeout: Optional[float] = None) -> None:
         return None
 
+    def _co_body(self) -> None:
+        self.go.acquire()
+        try:
+            if not self.kill and self.target is not None:
+                self.target(*self.args, **self.kwargs)
+        except _Kill:
+            pass
+        except Exception as e:  # noqa: BLE001 - reported by the harness through SCHED.errors
+            SCHED.errors.append(repr(e))
+        finally:
+            self.done = True
+            SCHED.by_ident.pop(_thread.get_ident(), None)
+            self.back.release()
+
+    def _resume(self) -> None:
+        """Main thread: let the poller run until its next sleep (or its end)."""
+        if not self.os_started:
+            self.os_started = True
+            ident = _thread.start_new_thread(self._co_body, ())
+            SCHED.by_ident[ident] = self
+        self.go.release()
+        self.back.acquire()
+
     def _run(self) -> None:
+        if self.co:
+            self._resume()
+            if not self.done:
+                SCHED.pending.append(self)
+            return
         SCHED.running = self
         try:
             if self.target is not None:
@@ -88,6 +135,12 @@ class _Sched:
         self.reset()
 
     def reset(self, start: Any = 0.0) -> None:
+        for t in list(getattr(self, "pending", [])):
+            if getattr(t, "co", False) and t.os_started and not t.done:
+                t.kill = True
+                t._resume()
+        self.by_ident: Dict[int, VThread] = {}
+        self.errors: List[str] = []
         self.now: Any = start
         self.pending: List[VThread] = []
         self.seq = 0
@@ -133,6 +186,28 @@ class _Sched:
 SCHED = _Sched()
 
 
+class _VTime:
+    """``time`` as seen by sync_interpreter: only sleep() is used there."""
+
+    @staticmethod
+    def sleep(d: Any) -> None:
+        th = SCHED.by_ident.get(_thread.get_ident())
+        if th is None:
+            from vf.kf import HarnessLimit
+
+            raise HarnessLimit("vthreading: time.sleep() outside a polling thread")
+        th.deadline = SCHED.now + d
+        th.back.release()
+        th.go.acquire()
+        if th.kill:
+            raise _Kill()
+
+    def __getattr__(self, name: str) -> Any:
+        import time as _t
+
+        return getattr(_t, name)
+
+
 class _VThreading:
     Thread = VThread
     Event = VEvent
@@ -163,6 +238,7 @@ def install() -> None:
     import xstate_statemachine.sync_interpreter as si
 
     si.threading = _VThreading()  # type: ignore[attr-defined]
+    si.time = _VTime()  # type: ignore[attr-defined]
     cls = si.SyncInterpreter
     orig_after = cls._after_timer
     orig_deliver = cls._deliver
